@@ -307,6 +307,11 @@ func (feed *dcpFeed) run() {
 
 	for {
 		if event := feed.events.pull(); event != nil {
+			if feed.collection.bucket.storeClosed.Load() {
+				// The store was shut down (bucket deleted, or its last handle closed). Feeds that are not
+				// registered with the collection (Dump) are not told: stop working through the queue.
+				break
+			}
 			feed.callback(*event)
 			if event.Cas > feed.lastCas {
 				feed.lastCas = event.Cas
